@@ -207,7 +207,8 @@ const_str StringResolvable::GetConstStringInternal(StringDictionary& dict) const
         return dict.Add(string);
     }
 
-    return const_str(0);
+    // use the default, like the non-const overload: 0 is not an index of the dictionary
+    return ConstStrings::Empty;
 }
 
 bool StringResolvable::IsEmpty() const
